@@ -7,10 +7,10 @@ From PahoV Require Import Base.Prelude Codec.Validate.
 (* ------------------------------------------------------------------ topic levels
    4.7.1: "The forward slash ('/' U+002F) is used to separate each level". Own left-to-right
    splitter with an accumulator (not Prelude.split_on). *)
-Fixpoint spec_levels_acc (cur : list Z) (s : list Z) : list (list Z) :=
+Fixpoint spec_levels_acc (cur : list Z) (s : list Z) : list (list Z) :=   (* cur: current level, reversed *)
   match s with
-  | [] => [rev cur]
-  | c :: s' => if c =? 47 then rev cur :: spec_levels_acc [] s'
+  | [] => [rev_append cur []]
+  | c :: s' => if c =? 47 then rev_append cur [] :: spec_levels_acc [] s'
                else spec_levels_acc (c :: cur) s'
   end.
 Definition spec_levels (s : list Z) : list (list Z) := spec_levels_acc [] s.
